@@ -321,6 +321,35 @@ def real_behaviour(b, rng, n_objects=12, n_steps=60):
                 d.call(o, 'to_graph')
             for args in ((), (3.3,), (), (5.1,), (1.0,), ()):
                 d.call(o, 'collective', *args)
+    if b % 4 == 1:
+        # directed: a trajectory is analysed, extended in place, and analysed again through a NEW metrics object; the recomputation it is
+        # compared with runs on an independent copy of the extended data (a value remembered for the shorter trajectory, by whatever
+        # object, must not be served)
+        from gemdat import Trajectory
+        w = gen.SiteWorld(rng, 'tric', 'pmg', N=32, n_sites=3, radius=1.0, inner_fraction=1.0)
+        ta = w.trajectory(gen.random_history(rng, 9, 2, 3, p_stay=0.5, inner=False))
+        tb = w.trajectory(gen.random_history(rng, 7, 2, 3, p_stay=0.5, inner=False))
+        if [str(x) for x in ta.species] == [str(x) for x in tb.species]:
+            oa = d.create(ta)
+            kinds[oa] = 'X'
+            om0 = d.create(TrajectoryMetrics(ta), parents=[oa])
+            kinds[om0] = 'X'
+            for name in ('speed', 'amplitudes', 'vibration_amplitude'):
+                d.call(om0, name)
+            ta.distances_from_base_position(), ta.mean_squared_displacement()
+            ta.extend(tb)
+            ref = Trajectory(species=ta.species, coords=np.array(ta.positions), lattice=ta.get_lattice(), time_step=ta.time_step,
+                             metadata=dict(ta.metadata))
+            om1 = d.create(TrajectoryMetrics(ta), parents=[oa])
+            kinds[om1] = 'X'
+            mref = TrajectoryMetrics(ref)
+            for name, kw in (('speed', {}), ('tracer_diffusivity', {'dimensions': 3}), ('amplitudes', {}), ('particle_density', {})):
+                got = canon(getattr(d.objs[om1], name)(**kw))
+                fresh = canon(getattr(mref, name)(**kw))
+                d.recs.append({'b': d.b, 'act': 'Call', 'o': om1, 'm': name, 'x': 'after-extend vs independent copy',
+                               'rtag': d.tag_of(got), 'ftag': d.tag_of(fresh)})
+            del ref, mref, ta, tb
+            d.drop(om0)
     for _ in range(n_steps):
         live = list(d.objs)
         r = rng.random()
@@ -331,6 +360,8 @@ def real_behaviour(b, rng, n_objects=12, n_steps=60):
             continue
         o = live[int(rng.integers(0, len(live)))]
         k = kinds[o]
+        if k == 'X' and r < 0.75:
+            continue
         if r < 0.75:
             try:
                 if k == 'T':
